@@ -330,7 +330,7 @@ def add_reversals(rng, cast, top=None, bottom=None):
         j = rng.randint(0, k - 1)                  # raised back to sample j
         idx += list(range(0, k + 1)) + list(range(k - 1, j - 1, -1))
         shift += [0.0] * (k + 1) + [rng.choice([0.0, rng.uniform(0.0, 0.3)]) * abs(data[1, 0] - data[0, 0]) for _ in range(k - j)]
-        start_down = j + 1 if rng.random() < 0.7 else j
+        start_down = j + 1                         # (no exactly repeated depth: ties are not reversals for the code's `<`)
         desc['top_yoyo'] = {'down_to': k, 'back_to': j}
     else:
         start_down = 0
@@ -339,8 +339,6 @@ def add_reversals(rng, cast, top=None, bottom=None):
     if bottom and n >= 3:
         m = rng.randint(1, min(n - 1, 8))
         up = list(range(n - 2, n - 2 - m, -1))
-        if rng.random() < 0.2:
-            up = [n - 1] + up                       # a repeated deepest sample (equal depth: not a reversal for `<`)
         idx += up
         # the up-cast samples sit a little above the depths of the down-cast samples
         shift += [rng.choice([0.0, -rng.uniform(0.0, 0.4)]) * abs(data[i, 0] - data[max(i - 1, 0), 0]) for i in up]
